@@ -443,7 +443,13 @@ impl<'a> Gen<'a> {
                 let mut snd = self.rng.pick(&ints).clone();
                 if self.rng.pct(self.cfg.divrem_pct) && ctx.len() + 3 <= self.cfg.max_live {
                     op = if self.rng.pct(50) { BinOp::Div } else { BinOp::Rem };
-                    if self.rng.pct(85) {
+                    if self.rng.pct(40) {
+                        // an existing variable as divisor (the run is discarded if it is zero);
+                        // the left-most integer lives in the register that division clobbers on x86-64
+                        if self.rng.pct(40) {
+                            snd = ints[0].clone();
+                        }
+                    } else {
                         // fresh non-zero divisor
                         let d = self.fresh("d");
                         let mut lit = self.lit_value();
